@@ -4,8 +4,11 @@ import LenaModel.Model.C15Spec
 import LenaModel.Model.C15Key
 /-! Model driver for C15.  Every request carries `"names"`: the key alphabet of the case.
 A context is a JSON object (nested; scalars null / bool / int / string; `["obj", s]` = an object json cannot
-encode whose `str()` is `s`); a value is `{"d": data, "c": context | null}` with data null / bool / int /
-string / {"tuple":true}.
+encode whose `str()` is `s` — the harness also sends a list / tuple / set found in a context this way: lena
+never looks inside); a value is `{"d": data, "c": context | null}` with data null / bool / int /
+string / {"tuple":true} / {"k": KIND} (an instance of a further class, `kindTable`).
+A specification may carry `"sub": true` (the string / list / tuple is an instance of a subclass): ignored here,
+an instance of a subclass of `list` is a list.
 
 Specifications:
   {"t":"str","s":"a.b"} {"t":"cls","c":"int"} {"t":"fn","f":NAME} {"t":"list","l":[..]} {"t":"tuple","l":[..]}
@@ -31,15 +34,21 @@ def fnTable : String → Option (Item → Res)
   | "false" => some (fun _ => .ok false)
   | "raise_zde" => some (fun _ => .raise "Other:ZeroDivisionError")
   | "raise_lke" => some (fun _ => .raise "LenaKeyError")
+  | "raise_lte" => some (fun _ => .raise "LenaTypeError")
+  | "raise_lve" => some (fun _ => .raise "LenaValueError")
   | "pos" => some (fun v =>          -- `lambda v: get_data(v) > 0`
       match v.data with
       | .int i => .ok (decide (i > 0))
       | .bool b => .ok b
+      -- the instances the harness builds: 1.5, MyInt(7), Fraction(1, 2)
+      | .other .float | .other .intSub | .other .fraction => .ok true
       | _ => .raise "Other:TypeError")
   | "inv" => some (fun v =>          -- `lambda v: 1 // get_data(v) > 0`
       match v.data with
       | .int i => if i = 0 then .raise "Other:ZeroDivisionError" else .ok (decide (i = 1))
       | .bool b => if b then .ok true else .raise "Other:ZeroDivisionError"
+      | .other .fraction => .ok true                       -- 1 // Fraction(1, 2) == 2
+      | .other .float | .other .intSub => .ok false        -- 1 // 1.5 == 0.0, 1 // 7 == 0
       | _ => .raise "Other:TypeError")
   | "has_ctx" => some (fun v => .ok (match v.ctx with | some l => nonEmpty l | none => false))
   -- other exception classes (the class name is data for the model)
@@ -58,10 +67,14 @@ def fnTable : String → Option (Item → Res)
   | "xstr" => some (fun _ => .ok true)
   | "none" => some (fun _ => .ok false)
   | "data" => some (fun v => .ok (match v.data with     -- `lambda v: get_data(v)`: selected iff the data is true
-      | .none => false | .bool b => b | .int i => i != 0 | .str s => s != "" | .tuple => true))
+      | .none => false | .bool b => b | .int i => i != 0 | .str s => s != "" | .tuple => true
+      | .other _ => true))                                 -- the instances the harness builds are all true
   | _ => none
 
 def predTable : String → Option (Val → Res)
+  | "raise_lke" => some (fun _ => .raise "LenaKeyError")
+  | "raise_lte" => some (fun _ => .raise "LenaTypeError")
+  | "raise_lve" => some (fun _ => .raise "LenaValueError")
   | "true" => some (fun _ => .ok true)
   | "false" => some (fun _ => .ok false)
   | "raise_zde" => some (fun _ => .raise "Other:ZeroDivisionError")
@@ -85,7 +98,21 @@ def predTable : String → Option (Val → Res)
 def clsTable : String → Option PyClass
   | "object" => some .object | "int" => some .int | "bool" => some .bool | "str" => some .str
   | "tuple" => some .tuple | "float" => some .float | "dict" => some .dict
+  | "list" => some .list | "NoneType" => some .noneType | "MyInt" => some .intSub | "Str" => some .strSub
+  | "User" => some .user | "UserSub" => some .userSub | "Number" => some .number | "Integral" => some .integral
+  | "Mapping" => some .mapping | "Sequence" => some .sequence | "Hashable" => some .hashable
   | _ => none
+
+/-- `{"k": KIND}`: 1.5, {"x": 1}, [1, 2], MyInt(7), Str("s"), User(), UserSub(), Fraction(1, 2), Point(1, 2) -/
+def kindTable : String → Option PyType
+  | "float" => some .float | "dict" => some .dict | "list" => some .list | "myint" => some .intSub
+  | "mystr" => some .strSub | "user" => some .user | "usersub" => some .userSub | "frac" => some .fraction
+  | "point" => some .namedTuple
+  | _ => none
+
+def kindName : PyType → String
+  | .float => "float" | .dict => "dict" | .list => "list" | .intSub => "myint" | .strSub => "mystr"
+  | .user => "user" | .userSub => "usersub" | .fraction => "frac" | .namedTuple => "point"
 
 partial def valOf (names : List String) (j : Json) : Option Val :=
   match j with
@@ -123,7 +150,10 @@ def dataOf (j : Json) : Option Data :=
   | .bool b => some (.bool b)
   | .str s => some (.str s)
   | .num _ => (int? j).map .int
-  | .obj _ => some .tuple
+  | .obj _ =>
+    match (j.getObjVal? "k").toOption with
+    | some k => ((str? k).bind kindTable).map .other
+    | none => some .tuple
   | _ => none
 
 def itemOf (names : List String) (j : Json) : Option Item := do
@@ -140,6 +170,7 @@ def dataJson : Data → Json
   | .int i => ofInt i
   | .str s => Json.str s
   | .tuple => Json.mkObj [("tuple", Json.bool true)]
+  | .other t => Json.mkObj [("k", Json.str (kindName t))]
 
 def itemJson (names : List String) (v : Item) : Json :=
   Json.mkObj [("d", dataJson v.data), ("c", ofOpt (fun l => valToJson names (.dict l)) v.ctx)]
@@ -311,7 +342,12 @@ def handle (j : Json) : Json :=
         | none => Json.mkObj [("init", "LenaTypeError"), ("hasBad", Json.bool spec.hasBad)]
         | some o =>
           let specRun := ((beforeError names o vals).filter (fun v => call names o v = .ok true), firstError names o vals)
-          Json.mkObj ([("r", ofList (fun v => resJson (call names o v)) vals)] ++ runOutJson names (filterRun names o vals)
+          -- another selector built from the same specification, with the other `raise_on_error` (for a Filter: False)
+          let troe := if top == "filter" then false else !roe
+          let twin : Json := match (inner troe spec).map (.selector · troe) with
+            | some t => ofList (fun v => resJson (call names t v)) vals
+            | none => Json.null
+          Json.mkObj ([("r", ofList (fun v => resJson (call names o v)) vals), ("rTwin", twin)] ++ runOutJson names (filterRun names o vals)
             ++ [("fill", ofList (fun v => resJson (filterFillInto names o v)) vals),
                 ("fillAll", Json.mkObj (runOutJson names (fillIntoAll names o [] vals))),
                 ("fillAll_eq_spec", Json.bool (decide (fillIntoAll names o [] vals =
